@@ -19,7 +19,7 @@ import (
 )
 
 type Mutation struct {
-	Kind     string `json:"kind"`   // drop-required dup-single-block unknown-attr unknown-block wrong-kind attr-as-block block-as-attr missing-label extra-label
+	Kind     string `json:"kind"`   // drop-required dup-single-block unknown-attr unknown-block wrong-kind attr-as-block block-as-attr missing-label extra-label misspelt-attr dup-attr
 	Detail   string `json:"detail"` // e.g. int<-nonnumeric-string
 	Target   string `json:"target"` // schema path of the item touched
 	Name     string `json:"name"`   // the name the error has to mention ("" = no such demand)
@@ -27,6 +27,9 @@ type Mutation struct {
 	LineTo   int    `json:"line_to"`
 	AltFrom  int    `json:"alt_from,omitempty"` // second acceptable place (the other copy of a duplicated block)
 	AltTo    int    `json:"alt_to,omitempty"`
+	// Layout: "in-one-line" = the body that holds the fault is printed in the single-line form
+	// `Type { item }` / `Type {}`; "on-one-line" = the faulty block itself is; "" otherwise
+	Layout string `json:"layout,omitempty"`
 }
 
 type CaseC struct {
@@ -123,6 +126,29 @@ func genC(t *rapid.T) CaseC {
 		}
 		return owner.Body
 	}
+	realItems := func(b []*node) (out []*node) {
+		for _, x := range b {
+			if x.Kind == "attr" || x.Kind == "block" {
+				out = append(out, x)
+			}
+		}
+		return
+	}
+	// bodies without any item and attributes that are alone in their block: the places where a
+	// fault can sit in a block written on one line
+	var emptyBodies []bodyRef
+	var soleAttrs []*node
+	for _, br := range bodies {
+		if br.owner == nil {
+			continue
+		}
+		switch r := realItems(br.owner.Body); {
+		case len(r) == 0:
+			emptyBodies = append(emptyBodies, br)
+		case len(r) == 1 && r[0].Kind == "attr":
+			soleAttrs = append(soleAttrs, r[0])
+		}
+	}
 	setBody := func(owner *node, b []*node) {
 		if owner == nil {
 			top = b
@@ -160,7 +186,7 @@ func genC(t *rapid.T) CaseC {
 		kinds = append(kinds, "dup-single-block", "dup-single-block")
 	}
 	if len(attrs) > 0 {
-		kinds = append(kinds, "wrong-kind", "wrong-kind", "wrong-kind", "attr-as-block")
+		kinds = append(kinds, "wrong-kind", "wrong-kind", "wrong-kind", "attr-as-block", "misspelt-attr", "misspelt-attr", "dup-attr")
 	}
 	if len(blocks) > 0 {
 		kinds = append(kinds, "block-as-attr")
@@ -173,6 +199,22 @@ func genC(t *rapid.T) CaseC {
 	}
 	mut := Mutation{Kind: rapid.SampledFrom(kinds).Draw(t, "mkind")}
 	var place, alt, placeParent *node
+	var owner *node // the block whose body holds the fault (nil: top level)
+	// pickAttr: an attribute, with a bias towards one that is alone in its block
+	pickAttr := func(from []*node) *node {
+		var sole []*node
+		for _, a := range from {
+			for _, x := range soleAttrs {
+				if x == a {
+					sole = append(sole, a)
+				}
+			}
+		}
+		if len(sole) > 0 && rapid.IntRange(0, 99).Draw(t, "msole") >= 50 {
+			return rapid.SampledFrom(sole).Draw(t, "mt")
+		}
+		return rapid.SampledFrom(from).Draw(t, "mt")
+	}
 
 	switch mut.Kind {
 	case "drop-required":
@@ -187,6 +229,7 @@ func genC(t *rapid.T) CaseC {
 		par.Body = nb // a one-line block that lost its only item is printed as "{}"
 		mut.Name, mut.Target, mut.Detail = n.Name, n.Path, n.F.vk
 		placeParent = par
+		owner = par
 	case "dup-single-block":
 		n := rapid.SampledFrom(singleBlocks).Draw(t, "mt")
 		cp := *n
@@ -217,8 +260,14 @@ func genC(t *rapid.T) CaseC {
 		}
 		mut.Name, mut.Target = n.Name, n.Path
 		place, alt = &cp, n
+		owner = par
 	case "unknown-attr", "unknown-block":
-		br := rapid.SampledFrom(bodies).Draw(t, "mbody")
+		var br bodyRef
+		if len(emptyBodies) > 0 && rapid.IntRange(0, 99).Draw(t, "mempty") >= 50 {
+			br = rapid.SampledFrom(emptyBodies).Draw(t, "mbody")
+		} else {
+			br = rapid.SampledFrom(bodies).Draw(t, "mbody")
+		}
 		names := schemaNames(br.ty)
 		pool := foreignNames
 		if mut.Kind == "unknown-block" {
@@ -261,6 +310,61 @@ func genC(t *rapid.T) CaseC {
 		}
 		mut.Detail = br.ty.Name()
 		place = nw
+		owner = br.owner
+	case "misspelt-attr":
+		// an attribute that is there gets a name its body does not define: a case variant, a
+		// doubled or lost letter, a plural - the value stays as it was spelled
+		n := pickAttr(attrs)
+		names := schemaNames(n.Ty)
+		var cands []string
+		nm := n.Name
+		k := rapid.IntRange(0, len(nm)-1).Draw(t, "mtypo")
+		for _, v := range []string{strings.ToLower(nm), strings.ToUpper(nm), nm + "s", nm + "_", nm[:k+1] + nm[k:], nm[:k] + nm[k+1:], nm[:len(nm)-1], "_" + nm} {
+			if !names[v] && identRE.MatchString(v) {
+				cands = append(cands, v)
+			}
+		}
+		sortStrings(cands)
+		cp := *n
+		cp.Name = rapid.SampledFrom(cands).Draw(t, "mname")
+		replace(n, &cp)
+		mut.Name, mut.Target = cp.Name, n.Path
+		mut.Detail = "optional"
+		if n.F.kind == fAttr {
+			mut.Detail = "required"
+		}
+		place = &cp
+		owner = parentOf[n]
+	case "dup-attr":
+		// the same attribute a second time in the same body, with the same or another value
+		n := rapid.SampledFrom(attrs).Draw(t, "mt")
+		cp := *n
+		cp.Trail, cp.PreEq, cp.PostEq = "", "", ""
+		mut.Detail = "same-value"
+		if rapid.Bool().Draw(t, "dupother") {
+			cp.Expr, cp.ExprHD = map[string]string{"string": `"other"`, "int": "7", "bool": "true", "list": `["other"]`, "map": `{ other = "x" }`}[n.F.vk], false
+			mut.Detail = "other-value"
+		}
+		par := parentOf[n]
+		b := getBody(par)
+		idx := 0
+		for i := range b {
+			if b[i] == n {
+				idx = i
+			}
+		}
+		switch rapid.IntRange(0, 2).Draw(t, "duppos") {
+		case 0:
+			insertAt(par, &cp, idx+1)
+		case 1:
+			insertAt(par, &cp, len(b))
+		default:
+			insertAt(par, &cp, 0)
+			mut.Detail += "-before"
+		}
+		mut.Name, mut.Target = n.Name, n.Path
+		place, alt = &cp, n
+		owner = par
 	case "wrong-kind":
 		// value kind first, so that ints, bools, lists and maps are not drowned by the many strings
 		byKind := map[string][]*node{}
@@ -273,13 +377,14 @@ func genC(t *rapid.T) CaseC {
 				vks = append(vks, k)
 			}
 		}
-		n := rapid.SampledFrom(byKind[rapid.SampledFrom(vks).Draw(t, "mvk")]).Draw(t, "mt")
+		n := pickAttr(byKind[rapid.SampledFrom(vks).Draw(t, "mvk")])
 		w := rapid.SampledFrom(wrongKinds[n.F.vk]).Draw(t, "mw")
 		n.Expr, n.ExprHD = w.expr, false
 		mut.Detail, mut.Target = w.detail, n.Path
 		place = n
+		owner = parentOf[n]
 	case "attr-as-block":
-		n := rapid.SampledFrom(attrs).Draw(t, "mt")
+		n := pickAttr(attrs)
 		nw := &node{Kind: "block", Name: n.Name, OneLine: true}
 		if rapid.Bool().Draw(t, "mbodyful") {
 			nw.OneLine = false
@@ -291,12 +396,14 @@ func genC(t *rapid.T) CaseC {
 			mut.Detail += "-required"
 		}
 		place = nw
+		owner = parentOf[n]
 	case "block-as-attr":
 		n := rapid.SampledFrom(blocks).Draw(t, "mt")
 		nw := &node{Kind: "attr", Name: n.Name, Expr: rapid.SampledFrom([]string{`"x"`, `{}`, `[]`, `{ a = "b" }`, `[{}]`, `true`}).Draw(t, "mval")}
 		replace(n, nw)
 		mut.Name, mut.Target, mut.Detail = n.Name, n.Path, n.F.vk
 		place = nw
+		owner = parentOf[n]
 	case "missing-label":
 		n := rapid.SampledFrom(labelled).Draw(t, "mt")
 		n.Labels = n.Labels[:len(n.Labels)-1]
@@ -308,6 +415,47 @@ func genC(t *rapid.T) CaseC {
 		mut.Name, mut.Target = n.Name, n.Path
 		mut.Detail = fmt.Sprintf("labels=%d", len(n.Labels))
 		place = n
+	}
+
+	// ---- layout of the faulty place: a block that now holds one item (or none) may be written
+	// on one line, `Type { item }` / `Type {}`, whatever the item is
+	relayout := func(b *node, pct int) {
+		if b == nil || b.Kind != "block" {
+			return
+		}
+		r := realItems(b.Body)
+		ok := false
+		switch {
+		case len(r) == 0:
+			ok = true
+		case len(r) == 1 && r[0].Kind == "attr":
+			ok = !r[0].ExprHD && r[0].Trail == ""
+		case len(r) == 1 && r[0] == place:
+			// a nested block inside a single-line block: only the injected block itself
+			ok = r[0].OneLine && r[0].Trail == ""
+			pct /= 2
+		}
+		if !ok {
+			b.OneLine = false
+			return
+		}
+		// otherwise the block keeps the form it has (a one-line block whose only attribute got
+		// a wrong value is still a one-line block)
+		if rapid.IntRange(0, 99).Draw(t, "moneline") >= 100-pct {
+			b.Body, b.OneLine = r, true
+		}
+	}
+	if place != nil && place.Kind == "block" && (mut.Kind == "unknown-block" || mut.Kind == "attr-as-block") {
+		relayout(place, 50)
+	}
+	relayout(owner, 75)
+	switch {
+	case owner != nil && owner.OneLine:
+		mut.Layout = "in-one-line"
+		p.cls("fault-in-one-line-block")
+	case place != nil && place.Kind == "block" && place.OneLine:
+		mut.Layout = "on-one-line"
+		p.cls("fault-on-one-line-block")
 	}
 
 	src, tops := renderTop(top, st)
@@ -338,6 +486,9 @@ func sortStrings(s []string) {
 func checkC(c CaseC) *core.Violation {
 	m := c.Mut
 	id := m.Kind + "|" + m.Detail
+	if m.Layout != "" {
+		id += "|" + m.Layout
+	}
 	text, _, added := expandPad(c.Src, c.Cfg, c.Pad)
 	if c.Pad != nil {
 		id += "|" + padLabels(c.Pad, len(text))[1]
@@ -398,6 +549,24 @@ func checkC(c CaseC) *core.Violation {
 	return nil
 }
 
+// layoutClasses: the printer's classes that concern the layout of the file rather than the
+// spelling of a value; sub-checks c and d show them in their histograms as "layout:<class>".
+var layoutClasses = map[string]bool{
+	"one-line-block": true, "one-line-block-multiline-value": true, "one-line-block-labelled": true, "one-line-block-tight": true,
+	"one-line-block-comment": true, "empty-block-one-line": true, "block-open-odd": true, "blank-lines-multi": true,
+	"eq-spacing-per-attr": true, "list-trailing-comma": true, "map-trailing-comma": true, "crlf": true, "no-final-newline": true, "bom": true,
+}
+
+func layoutLabels(classes []string) []string {
+	var out []string
+	for _, c := range classes {
+		if layoutClasses[c] {
+			out = append(out, "layout:"+c)
+		}
+	}
+	return out
+}
+
 func diagList(d hcl.Diagnostics) string {
 	var b strings.Builder
 	for _, x := range d {
@@ -411,13 +580,29 @@ func classifyC(c CaseC) core.Class {
 	cl.NonTrivial = true
 	cl.Labels = []string{"mut:" + c.Mut.Kind}
 	switch c.Mut.Kind {
-	case "wrong-kind", "drop-required", "attr-as-block", "dup-single-block":
+	case "wrong-kind", "drop-required", "attr-as-block", "dup-single-block", "misspelt-attr", "dup-attr":
 		cl.Labels = append(cl.Labels, c.Mut.Kind+":"+c.Mut.Detail)
+	}
+	if c.Mut.Layout != "" {
+		cl.Labels = append(cl.Labels, "fault-"+c.Mut.Layout+"-block")
+		if c.Mut.Layout == "in-one-line" {
+			cl.Labels = append(cl.Labels, "fault-in-one-line-block:"+c.Mut.Kind)
+		}
+	}
+	// the layout classes are shown in full by sub-checks a and d; here only the single-line family
+	// (the histogram keeps the 60 most frequent labels and the fault details matter more)
+	for _, l := range layoutLabels(c.Classes) {
+		if strings.Contains(l, "one-line") {
+			cl.Labels = append(cl.Labels, l)
+		}
 	}
 	depth := strings.Count(c.Mut.Target, ".")
 	cl.Labels = append(cl.Labels, fmt.Sprintf("depth:%d", depth))
 	cl.Labels = append(cl.Labels, padLabels(c.Pad, len(c.Src))...)
 	cl.Fingerprint = fmt.Sprintf("%s|%s|depth=%d", c.Mut.Kind, c.Mut.Detail, depth)
+	if c.Mut.Layout != "" {
+		cl.Fingerprint = fmt.Sprintf("%s|%s|%s", c.Mut.Kind, c.Mut.Detail, c.Mut.Layout)
+	}
 	if c.Pad != nil {
 		cl.Fingerprint = c.Mut.Kind + padFingerprint(c.Pad)
 	}
@@ -427,11 +612,12 @@ func classifyC(c CaseC) core.Class {
 func TestC14c(t *testing.T) {
 	core.Run(t, core.Spec[CaseC]{
 		Property: "C14", Sub: "c",
-		Rule: "a valid generated profile (as in sub-check a, any spelling) with exactly one fault: a required attribute dropped; a block the schema allows once written twice (full or empty copy, before/after/at the end); an attribute or block the enclosing body does not define (foreign names, case variants of defined ones) added to any body incl. top level; a value of the wrong kind (string<-list/map, int<-non-numeric string/bool/list/map/fraction/out-of-range, bool<-other string/number/list/map, list<-string/number/map/nested, map<-string/number/list/nested); an attribute written as a block or a block as an attribute; a block label missing or in excess. Oracle: SetProfile returns a non-nil error that is an hcl.Diagnostics, every error diagnostic has a summary, at least one has a subject range in the profile file whose lines meet the faulty item (dropped attribute: the enclosing block; duplicated block: either copy) and - for missing/unknown/duplicate/misplaced names - mentions the name; no panic. Every case is non-trivial; distinct = (fault kind, detail, nesting depth)",
-		Gen:   genC, Check: checkC, Classify: classifyC,
+		Rule: "a valid generated profile (as in sub-check a, any spelling) with exactly one fault: a required attribute dropped; a block the schema allows once written twice (full or empty copy, before/after/at the end); an attribute or block the enclosing body does not define (foreign names, case variants of defined ones) added to any body incl. top level; a value of the wrong kind (string<-list/map, int<-non-numeric string/bool/list/map/fraction/out-of-range, bool<-other string/number/list/map, list<-string/number/map/nested, map<-string/number/list/nested); an attribute written as a block or a block as an attribute; a block label missing or in excess. Oracle: SetProfile returns a non-nil error that is an hcl.Diagnostics, every error diagnostic has a summary, at least one has a subject range in the profile file whose lines meet the faulty item (dropped attribute: the enclosing block; duplicated block: either copy) and - for missing/unknown/duplicate/misplaced names - mentions the name; no panic. Every case is non-trivial; distinct = (fault kind, detail, nesting depth). Further fault kinds: an attribute that is present gets a name its body does not define (misspelt-attr: case variant, doubled or lost letter, plural; the diagnostics on its lines have to mention the new name), an attribute written twice in one body with the same or another value (dup-attr; either copy is the place). Layout of the faulty place: after the fault is put in, a block that holds exactly one item or none may be written on one line - `Demon { Sleeep = 2 }`, `user \"x\" { Passwd = \"y\" }`, `Demon { Foo = 1 }` (unknown attribute added to an empty block), `WebHook { Discord = \"x\" }` (block as attribute), `Service {}` (required attribute dropped), `Demon { Sleep = \"abc\" }`, `Demon { Foo {} }` (unknown block / attribute as block inside a single-line block); unknown attributes and blocks go with probability 1/2 into a block without items when there is one, and the attribute faults pick with probability 1/2 an attribute that is alone in its block. Labels fault-in-one-line-block[:kind] (the body holding the fault is in the single-line form), fault-on-one-line-block (the faulty block itself is), layout:<one-line classes of the printer>; such cases have the distinct key (fault kind, detail, layout) and the signature suffix |in-one-line / |on-one-line",
+		Gen:  genC, Check: checkC, Classify: classifyC,
 		Assumptions: []string{
 			"'names the problem and its place' is read as: some error diagnostic of the returned hcl.Diagnostics has a non-empty summary and a subject range on the lines of the faulty item; for a dropped attribute the place is the enclosing block",
 			"a number where a string is expected (Host = 12) is not a fault: the language converts it",
+			"an attribute set twice in one body is not a profile that says one thing; it is counted with 'sets an unknown attribute / repeats a single block' as a fault that has to be rejected with the place of either copy and the name (the parser of the unchanged tree does: 'Attribute redefined')",
 		},
 	})
 }
